@@ -86,6 +86,18 @@ CHECKS = {
         note="The diff verdict is skipped when the hard-link structure is ambiguous; empty directories alone are not a difference; "
              "small arrays.",
         design="DESIGN.md section 4, C11"),
+    "C05": dict(
+        category="exploration",
+        technique="property-based testing (Hypothesis) with a version-store oracle: generated imperfect syncs (partial, killed, disturbed by --test-run, shim kill), unbounded damage, generated fix filters",
+        engine="hypothesis-cli",
+        text="After any generated history ending in an imperfect sync and any damage (also beyond N devices), each recorded file "
+             "must end with the bytes of its recorded (size, mtime) version, or be reported unrecoverable with failing status, or be "
+             "untouched; recovered-with-other-bytes, silent rewrites, writes to unknown paths or to content files are violations. "
+             "Two listed known findings (C05-chg-length, C05-hybrid) are recognised by specific signatures, counted, and the search "
+             "continues past them; their regression cases are replayed on every run.",
+        note="Hash size 16; silent byte changes only in blocks with a recorded hash of current data (the property's damage domain); "
+             "a fix that stops with a fatal error is re-run as the tool asks and the completed run is judged.",
+        design="DESIGN.md section 4, C05 and section 7"),
 }
 
 NOT_YET = "check not built yet at this commit (planned in DESIGN.md section 4); not claimed until it runs"
